@@ -58,8 +58,14 @@ var _ Mailbox = (*BoundedMailbox)(nil)
 //   - When the mailbox is empty, Dequeue blocks until a message arrives (or the
 //     mailbox is disposed).
 func NewBoundedMailbox(capacity int) *BoundedMailbox {
+	// A ring of a single cell is unusable: the underlying ring buffer stamps a cell
+	// with position+1 after a Put and with position+mask+1 after a Get, which is
+	// the same value when mask is 0, so a second Put overwrites the message that
+	// was not consumed yet (instead of blocking) and the consumer then spins
+	// forever on a position it can never reach. Use at least two cells (the ring
+	// rounds other capacities up to a power of two anyway).
 	return &BoundedMailbox{
-		underlying: gods.NewRingBuffer(uint64(capacity)),
+		underlying: gods.NewRingBuffer(uint64(max(capacity, 2))),
 	}
 }
 
